@@ -384,8 +384,10 @@ class USBResetSequencer(Elaboratable):
             with m.State('IN_HOST_J'):
 
                 # If we've exceeded our minimum chirp time, consider this a valid pattern
-                # bit, and advance in the pattern.
-                with m.If(line_state_time == self._CYCLES_2P5_MICROSECONDS):
+                # bit, and advance in the pattern. (Only while the J is still present: otherwise the
+                # transition below rejects this J, and it must not be counted as a valid pair.)
+                with m.If((line_state_time == self._CYCLES_2P5_MICROSECONDS) &
+                          (self.line_state == self._LINE_STATE_FS_HS_J)):
 
                     # If this would complete our third pair, this completes a handshake,
                     # and we've identified a high speed host!
